@@ -11,7 +11,9 @@ import RumaModel.Generated.C16
   answered `ok`; `c16.glue.*` are answered by `Model/EndpointGlue.lean` instantiated with the
   reference form codec (`refForm`, proved lawful), `Canonical.encode` as the JSON writer, the JSON
   reader given on the request line (`j <tokens>` = the text of exactly this value) and the length
-  bound of `http::Uri`; everything else by `Model/Endpoint.lean`. Endpoint, history and glue
+  bound of `http::Uri`; `c16.real.*` by the same model instantiated with the descriptors of the real
+  endpoints (`Generated.C16.realReq` / `realResp`, identity codecs); everything else by
+  `Model/Endpoint.lean`. Endpoint, history and glue
   descriptor indices refer to `Generated/C16.lean`.
 -/
 namespace Ruma.Driver.C16
@@ -374,6 +376,73 @@ def handleGlue (toks : List String) : Option String :=
     if r.isEmpty then some (glueRinAnswer d ⟨status, headers, body.bytes⟩ body) else none
   | _ => none
 
+/-! ### The real endpoints under the glue model (`c16.real.*`)
+
+The request line carries a message the real conversions produced and read back unchanged; the
+answer is what the model — the descriptor extracted from the source text, with the identity
+codecs — makes of it: read (`tryFromHttpRequest`), then written again (`tryIntoHttpRequest`). A
+descriptor with a flattened body field is outside the model: its flattened fields stand in as
+plain body fields (so that "has body fields" is right) and the body is left out of the answer. -/
+
+def unflattenReq (d : ReqDesc) : ReqDesc :=
+  { d with fields := d.fields.map (fun f =>
+      match f.kind with | .flattenBody => ⟨f.name, .body Ty.anyB⟩ | _ => f) }
+
+def unflattenResp (d : RespDesc) : RespDesc :=
+  { d with fields := d.fields.map (fun f =>
+      match f.kind with | .flattenBody => ⟨f.name, .body Ty.anyB⟩ | _ => f) }
+
+def realReqAnswer (d : ReqDesc) (a : Arrived) (body : BodyTok) (sat : SendAccessToken)
+    (vs : List Nat) : String :=
+  let d' := unflattenReq d
+  match tryFromHttpRequest refForm (jsonIn body) d' a with
+  | .ok v =>
+    match tryIntoHttpRequest refForm jsonOut uriLib d' v (bs "https://example.org") sat vs with
+    | .ok m =>
+      " ".intercalate ([if d.hasFlatten then "okp" else "ok", strTok m.method, strTok m.uri]
+        ++ showHeaders m.headers ++ (if d.hasFlatten then [] else [strTok m.body]))
+    | .err e => showIntoErr e
+    | .panic => "panic"
+    | .illTyped => "bad-op"
+  | _ => "rejected"
+
+def realRespAnswer (d : RespDesc) (r : HttpResponse) (body : BodyTok) : String :=
+  let d' := unflattenResp d
+  match tryFromHttpResponse (jsonIn body) d' r with
+  | .ok v =>
+    match tryIntoHttpResponse jsonOut d' v with
+    | .ok m =>
+      " ".intercalate ([if d.hasFlatten then "okp" else "ok", "i" ++ toString m.status]
+        ++ showHeaders m.headers ++ (if d.hasFlatten then [] else [strTok m.body]))
+    | .err e => showIntoErr e
+    | .panic => "panic"
+    | .illTyped => "bad-op"
+  | _ => "rejected"
+
+def handleReal (toks : List String) : Option String :=
+  match toks with
+  | "c16.real.req" :: e :: rest => do
+    let d ← (e.toNat?.bind (Generated.C16.realReq[·]?)).join
+    let (vs, r) ← parseVersions rest
+    match r with
+    | k :: tok :: r =>
+      let t ← parseStrTok tok
+      let sat ← k.toNat?.bind (satOf · t)
+      let (args, r) ← parseStrs r
+      let (query, r) ← parseStr r
+      let (headers, r) ← parsePairs r
+      let (body, r) ← parseBodyTok r
+      if r.isEmpty then some (realReqAnswer d ⟨d.method, query, headers, body.bytes, args⟩ body sat vs)
+      else none
+    | _ => none
+  | "c16.real.resp" :: e :: rest => do
+    let d ← (e.toNat?.bind (Generated.C16.realResp[·]?)).join
+    let (status, r) ← parseNatI rest
+    let (headers, r) ← parsePairs r
+    let (body, r) ← parseBodyTok r
+    if r.isEmpty then some (realRespAnswer d ⟨status, headers, body.bytes⟩ body) else none
+  | _ => none
+
 end Glue
 
 def handle (toks : List String) : String :=
@@ -485,6 +554,7 @@ def handle (toks : List String) : String :=
     | _, _ => "bad-op"
   | "c16.glue.req" :: _ | "c16.glue.resp" :: _ | "c16.glue.in" :: _ | "c16.glue.rin" :: _ =>
     (handleGlue toks).getD "bad-op"
+  | "c16.real.req" :: _ | "c16.real.resp" :: _ => (handleReal toks).getD "bad-op"
   | "c16.rt.resp" :: _ => "ok"
   | "c16.rt.synresp" :: _ => "ok"
   | "c16.rt.err" :: _ => "ok"
